@@ -157,6 +157,8 @@ def run_rpe(case, ref_path, est_path):
         return {"err": "E_FILTER"}
     except LieAlgebraException:
         return {"err": "E_GEOMETRY"}
+    except Exception as e:  # noqa: any other failure is reported, never a tool crash
+        return {"err": "EXC:" + type(e).__name__}
     return {"ok": [float(v) for v in np.asarray(m.error).reshape(-1)], "ids": [int(j) for j in m.delta_ids],
             "unit": m.unit.value}
 
